@@ -8,7 +8,8 @@
    attribute `empty` reads, per layer (name, value the cell attribute reads, value in the layer)); wf_side = the
    representation invariant of a side (Proofs/CopyProofs.v); Inv = all sides well formed and pairwise separated. *)
 From Coq Require Import ZArith List Bool.
-From Mesa Require Import Model.Copy Proofs.CopyProofs Proofs.CopyInvProofs Proofs.CopyFreshProofs.
+From Mesa Require Import Generated.Tables Model.Copy Proofs.CopyProofs Proofs.CopyInvProofs Proofs.CopyFreshProofs
+  Proofs.CopyBridge.
 Import ListNotations.
 Open Scope Z_scope.
 
@@ -174,6 +175,60 @@ Theorem C19_side_history : forall st ops j sd, Inv st -> Inv2 st -> nth_error (s
               = afinal (absf (st_heap st) sd) (filter (fun o => touches o j) ops).
 Proof. exact side_history. Qed.
 Print Assumptions C19_side_history.
+
+(* --- code-level tie (T1) -------------------------------------------------------------------------- *)
+(* The copy / pickle hooks are TRANSLATED from the working tree on every run (harness/tables/c19_copy_code.py):
+   Cell.__slots__ and Cell.__getstate__ (which slots go into the state, which are emptied, whether the instance
+   __dict__ is part of it), the filter of pickle_gridcell and the shape of its reduce value, the legacy branch of
+   unpickle_gridcell, the filter of Grid.__getstate__, the two loops of Grid.__setstate__ (one class for all cells;
+   a descriptor and a _mesa_properties entry per layer), AgentSet.__getstate__ / __setstate__ / _update.  The few
+   remaining statements are object glue and are checked verbatim: *)
+Theorem C19_source_skeletons :
+  gen_c19_gridcell_reduce_skeleton_ok && gen_c19_grid_setstate_skeleton_ok
+  && gen_c19_dspace_setstate_skeleton_ok && gen_c19_aset_skeleton_ok = true.
+Proof. exact skeletons_ok. Qed.
+Print Assumptions C19_source_skeletons.
+
+(* every slot of a cell is treated by the translated hooks as the model treats it: connections emptied (and rebuilt by
+   __setstate__), the instance __dict__ dropped for grid cells and kept for the others, everything else carried *)
+Theorem C19_source_slot_actions : forall (grid : bool) (k : Z), In k gen_c19_cell_slots ->
+  (if grid then gen_grid_action k else gen_plain_action k) = model_action grid k.
+Proof. exact slot_actions_bridge. Qed.
+Print Assumptions C19_source_slot_actions.
+
+Theorem C19_source_filters : forall k,
+  gen_c19_gridcell_keeps k = negb (k =? S_DICT) /\
+  gen_c19_gridcell_legacy_keeps k = gen_c19_gridcell_keeps k /\
+  gen_c19_grid_state_keeps k = negb (k =? A_CELL_KLASS).
+Proof. intros k. split; [apply gridcell_keeps_bridge|split; [apply gridcell_legacy_bridge|apply grid_state_keeps_bridge]]. Qed.
+Print Assumptions C19_source_filters.
+
+(* the model's copy functions ARE the translated code (gen_copy_space / gen_copy_set are written with the gen_c19_*
+   definitions: class assignment by the class loop, descriptor table by the descriptor loop, __dict__ handling by the
+   state shape, member order by __getstate__ / _update) ... *)
+Theorem C19_source_code_is_model : forall h sd ss,
+  copy_space h sd = gen_copy_space h sd /\ copy_set h ss = gen_copy_set h ss.
+Proof. intros h sd ss. split; [apply copy_space_bridge|apply copy_set_bridge]. Qed.
+Print Assumptions C19_source_code_is_model.
+
+(* ... so the headline theorems hold of the translated source code itself *)
+Theorem C19_faithful_of_source : forall h sd, wf_side h sd ->
+  abs_side (fst (gen_copy_space h sd)) (snd (gen_copy_space h sd)) = abs_side h sd.
+Proof. exact faithful_of_source. Qed.
+Print Assumptions C19_faithful_of_source.
+
+Theorem C19_attrs_wired_of_source : forall h sd c nl, wf_side h sd -> nogrid_ok sd ->
+  In c (cells_of (snd (gen_copy_space h sd))) -> In nl (layers_of (snd (gen_copy_space h sd))) ->
+  let h' := fst (gen_copy_space h sd) in
+  (length (h_layers h) <= snd nl)%nat /\
+  cell_get h' c (fst nl) = Some (nth (k_idx (getc h' c)) (l_data (getl h' (snd nl))) NOATTR).
+Proof. exact attrs_wired_of_source. Qed.
+Print Assumptions C19_attrs_wired_of_source.
+
+Theorem C19_agentset_faithful_of_source : forall h ss,
+  set_labels (fst (gen_copy_set h ss)) (snd (gen_copy_set h ss)) = set_labels h ss.
+Proof. exact agentset_faithful_of_source. Qed.
+Print Assumptions C19_agentset_faithful_of_source.
 
 (* --- non-vacuity -------------------------------------------------------------------------------- *)
 (* a 2x2 von Neumann grid, capacity 2, one extra layer (name 1, default 3): place two agents, write a cell
